@@ -87,6 +87,19 @@ package sqlx
 //@ spec 		(!GvcIs[*schema.DropTable](c) || c.(*schema.DropTable) != nil)
 //@ spec }
 
+//@ rec gvcScopeName
+//@ spec func gvcScopeName(c schema.Change) string {
+//@ spec 	t := gvcTableOf(c)
+//@ spec 	if t == nil || t.Schema == nil {
+//@ spec 		return ""
+//@ spec 	}
+//@ spec 	return t.Schema.Name
+//@ spec }
+//@ rec gvcSchemaDDL
+//@ spec func gvcSchemaDDL(c schema.Change) bool {
+//@ spec 	return GvcIs[*schema.AddSchema](c) || GvcIs[*schema.DropSchema](c)
+//@ spec }
+
 //@ func CheckChangesScope(opts migrate.PlanOptions, changes []schema.Change) (err error)
 //@   requires (forall i int :: 0 <= i && i < len(changes) ==> gvcPtrOK(changes[i]))
 //@   requires (forall c *schema.AddTable :: c != nil ==> c.T != nil)
@@ -94,7 +107,14 @@ package sqlx
 //@   requires (forall c *schema.DropTable :: c != nil ==> c.T != nil)
 //@   requires (forall t *schema.Table, k int :: t != nil && 0 <= k && k < len(t.Columns) ==> t.Columns[k] != nil && t.Columns[k].Type != nil)
 //@   requires (forall ct *schema.ColumnType :: ct != nil && GvcIs[*schema.EnumType](ct.Type) ==> ct.Type.(*schema.EnumType) != nil)
-//@   loop 1 invariant names != nil
-//@   loop 2 invariant names != nil && t != nil
+//@   ensures rejects-schema-ddl: (exists i int :: 0 <= i && i < len(changes) && gvcSchemaDDL(changes[i])) ==> err != nil
+//@   ensures rejects-modify-schema-in-deferred-plan: !opts.Mode.Is(migrate.PlanModeInPlace) && (exists i int :: 0 <= i && i < len(changes) && GvcIs[*schema.ModifySchema](changes[i])) ==> err != nil
+//@   ensures rejects-two-schemas: (forall i int, j int :: 0 <= i && i < len(changes) && 0 <= j && j < len(changes) && gvcScopeName(changes[i]) != "" && gvcScopeName(changes[j]) != "" && gvcScopeName(changes[i]) != gvcScopeName(changes[j]) ==> err != nil)
+//@   loop 1 invariant names != nil && 0 <= loopk && loopk <= len(changes)
+//@   loop 1 invariant (forall j int :: 0 <= j && j < loopk ==> !gvcSchemaDDL(changes[j]))
+//@   loop 1 invariant opts.Mode.Is(migrate.PlanModeInPlace) || (forall j int :: 0 <= j && j < loopk ==> !GvcIs[*schema.ModifySchema](changes[j]))
+//@   loop 1 invariant (forall j int :: 0 <= j && j < loopk && gvcScopeName(changes[j]) != "" ==> gvcHasKey(names, gvcScopeName(changes[j])))
+//@   loop 2 invariant names != nil && t != nil && 0 <= loopi1 && loopi1 < len(changes)
+//@   loop 2 invariant (forall j int :: 0 <= j && j <= loopi1 && gvcScopeName(changes[j]) != "" ==> gvcHasKey(names, gvcScopeName(changes[j])))
 //@   loop 3 localwrites
 //@   loop 3 invariant GvcFresh(ks)
